@@ -334,7 +334,7 @@ def collect(prop, tier):
                 stable += 1
             if not o["settled"]:
                 unsettled += 1
-        if unsettled * 4 > len(scripts):
+        if unsettled * 4 > len(scripts) and not violations:
             raise vlib.Infra("%d of %d two-hub scenarios never came to rest: no verdict (machine overloaded?)" % (unsettled, len(scripts)))
         if unsettled:
             notes.append("%d of %d two-hub scenarios never came to rest within the budget and were not judged as quiescent states" % (unsettled, len(scripts)))
